@@ -44,3 +44,4 @@ def run(ctx):
     C9.o3b_pyyaml_scalars(ctx, 'R08.12')
     from . import round3 as R3
     R3.r01_10_tree_untouched(ctx, 'R08.13')
+    R3.r08_14_verdict_is_a_set(ctx, 'R08.14')
